@@ -191,6 +191,29 @@ Proof.
   cbn in H2. inversion H2. reflexivity.
 Qed.
 
+Lemma pending_clear : forall fs, pending (clear_fails fs) = [].
+Proof. induction fs as [|f r IH]; [reflexivity|]. cbn [clear_fails map]. rewrite pending_cons. cbn. exact IH. Qed.
+
+Lemma pending_raise : forall f r pc, pending (set_top_fail (clear_fails (f :: r)) (Some pc)) = [pc].
+Proof.
+  intros f r pc. cbn [clear_fails map]. rewrite pending_set_top_fail.
+  change (map (fun f0 => mkSF (sf_fn f0) (sf_pos f0) None) r) with (clear_fails r).
+  rewrite pending_clear. reflexivity.
+Qed.
+
+Lemma clear_fails_fn : forall fs, map sf_fn (clear_fails fs) = map sf_fn fs.
+Proof. induction fs as [|f r IH]; [reflexivity|]. cbn. rewrite <- IH. reflexivity. Qed.
+Lemma clear_fails_pos : forall fs, map sf_pos (clear_fails fs) = map sf_pos fs.
+Proof. induction fs as [|f r IH]; [reflexivity|]. cbn. rewrite <- IH. reflexivity. Qed.
+
+Lemma fiber_match_raise : forall mf sf x,
+  fiber_match mf sf -> fiber_match mf (set_top_fail (clear_fails sf) x).
+Proof.
+  intros mf sf x [H1 H2]. unfold fiber_match.
+  rewrite set_top_fail_fn, set_top_fail_tl, clear_fails_fn. split; [exact H1|].
+  rewrite (map_tl sf_pos (clear_fails sf)), clear_fails_pos, <- (map_tl sf_pos sf). exact H2.
+Qed.
+
 Section Sim.
   Variable fl : flags.
   Hypothesis Hclear : clear_on_catch fl = true \/ records_all fl = true.
@@ -221,28 +244,26 @@ Section Sim.
       + unfold eip_rel in *. rewrite pending_cons, Ef in Hr. exact Hr.
     - (* OThrow *)
       cbn in Hok. destruct raised; [discriminate|]. cbn in Hok.
-      apply andb_true_iff in Hok as [Hnp Hne]. destruct sf as [|f r]; [discriminate|].
-      apply no_pending_nil in Hnp. unfold Inv; cbn. split; [|split; [exact Hcs|]].
-      + unfold fiber_match; cbn. exact (conj Hfn Hip).
-      + exists pc. split; [reflexivity|]. split; [|left; reflexivity].
-        rewrite pending_cons in Hnp. apply app_eq_nil in Hnp as [_ Hnp].
-        change (pending (mkSF (sf_fn f) (sf_pos f) (Some pc) :: r)) with ([pc] ++ pending r).
-        rewrite Hnp; reflexivity.
+      destruct sf as [|f r]; [discriminate|].
+      unfold Inv; cbn [mstep sstep fb_frames v_fib s_frames v_callers s_callers s_raised fb_error_ip v_ip s_site].
+      split; [|split; [exact Hcs|]].
+      + apply fiber_match_raise; exact (conj Hfn Hip).
+      + exists pc. split; [reflexivity|]. split; [apply pending_raise | left; reflexivity].
     - (* OFail *)
       cbn in Hok. destruct raised; [discriminate|]. cbn in Hok.
-      apply andb_true_iff in Hok as [Hnp Hne]. destruct sf as [|f r]; [discriminate|].
-      apply no_pending_nil in Hnp. unfold Inv; cbn. split; [|split; [exact Hcs|]].
-      + unfold fiber_match; cbn. exact (conj Hfn Hip).
-      + exists pc. split; [reflexivity|]. split.
-        * rewrite pending_cons in Hnp. apply app_eq_nil in Hnp as [_ Hnp].
-          change (pending (mkSF (sf_fn f) (sf_pos f) (Some pc) :: r)) with ([pc] ++ pending r).
-          rewrite Hnp; reflexivity.
-        * destruct (records fl site) eqn:Efr; [left; reflexivity|].
-          right. unfold eip_rel in Hr. rewrite Hnp in Hr.
-          destruct Hr as [Hr | Hr].
-          -- split; [exact Hr|]. split; [reflexivity|]. exists site. split; [reflexivity | exact Efr].
-          -- exfalso. unfold records_all in Hr. apply andb_true_iff in Hr as [Hr1 Hr2].
-             destruct site; cbn in Efr; congruence.
+      destruct sf as [|f r]; [discriminate|].
+      unfold Inv; cbn [mstep sstep fb_frames v_fib s_frames v_callers s_callers s_raised fb_error_ip v_ip s_site].
+      split; [|split; [exact Hcs|]].
+      + apply fiber_match_raise; exact (conj Hfn Hip).
+      + exists pc. split; [reflexivity|]. split; [apply pending_raise|].
+        destruct (records fl site) eqn:Efr; [left; reflexivity|].
+        right. unfold kc_stepb in Hkc. cbn [s_frames] in Hkc. rewrite Efr in Hkc. cbn [negb andb] in Hkc.
+        apply negb_false_iff in Hkc. apply no_pending_nil in Hkc.
+        unfold eip_rel in Hr. rewrite Hkc in Hr.
+        destruct Hr as [Hr | Hr].
+        * split; [exact Hr|]. split; [reflexivity|]. exists site. split; [reflexivity | exact Efr].
+        * exfalso. unfold records_all in Hr. apply andb_true_iff in Hr as [Hr1 Hr2].
+          destruct site; cbn in Efr; congruence.
     - (* OUnwind *)
       unfold op_okb in Hok. cbn [s_raised s_frames] in Hok. apply andb_true_iff in Hok as [Hok Hle2]. apply andb_true_iff in Hok as [Hra Hle1].
       subst raised. destruct Hr as [p [Htf [Hpend Hdisj]]].
@@ -401,8 +422,9 @@ Lemma known_class_empty : forall fl ops s,
 Proof.
   intros fl ops. induction ops as [|o r IH]; intros s Hv Hn; [reflexivity|].
   cbn [known_classb]. rewrite (IH _ Hv Hn), orb_false_r.
-  destruct o as [| | | | fc [|] cpc | | |]; try reflexivity. cbn.
-  destruct (s_site s) as [[|]|]; cbn; rewrite ?Hv, ?Hn, ?andb_false_r; reflexivity.
+  destruct o as [| | | st pc | fc [|] cpc | | |]; try reflexivity.
+  - cbn. destruct st; cbn; rewrite ?Hv, ?Hn; reflexivity.
+  - cbn. destruct (s_site s) as [[|]|]; cbn; rewrite ?Hv, ?Hn, ?andb_false_r; reflexivity.
 Qed.
 
 Print Assumptions mech_refines_spec.
@@ -459,15 +481,19 @@ Theorem error_ip_scoped_refuted_builtin :
     top_position (mrun (mkFlags true true true true) (init_vm fd_main) ops) = 2.
 Proof. exists ops_builtin_finally. repeat split; vm_compute; reflexivity. Qed.
 
-(* outside the well-formed histories (a new failure while a finally block is propagating another one):
-   with fail_records = false the stale position of the propagating exception is used for the frame of
-   a function called from the finally block - an offset of another chunk (the Rust code panics) *)
+(* a new failure while a finally block is propagating another one (now a well-formed history): when the
+   VM site does not record, the stale position of the propagating exception is used for the frame of a
+   function called from the finally block - an offset of another chunk (the Rust code panics); this is
+   the second half of the known class.  With the position recorded the trace is the Spec's. *)
 Definition ops_in_finally : list op := [OThrow 9; OUnwind 1 false 10; OCall 11 fd_g; OFail SiteVm 2].
 Example failure_in_finally_uses_stale_position :
-  wf_ops (sinit fd_main) ops_in_finally = false /\
+  wf_ops (sinit fd_main) ops_in_finally = true /\
+  known_classb (mkFlags true true false true) (sinit fd_main) ops_in_finally = true /\
   muncaught (mrun (mkFlags true true false true) (init_vm fd_main) ops_in_finally) = None /\
+  known_classb (mkFlags true true true true) (sinit fd_main) ops_in_finally = false /\
   muncaught (mrun (mkFlags true true true true) (init_vm fd_main) ops_in_finally)
-    = Some [("main", 2, "g"); ("main", 11, "")]%N%string.
+    = Some [("main", 2, "g"); ("main", 11, "")]%N%string /\
+  spec_uncaught (srun (sinit fd_main) ops_in_finally) = Some [("main", 2, "g"); ("main", 11, "")]%N%string.
 Proof. repeat split; vm_compute; reflexivity. Qed.
 
 (* ------------------------------------------------------------------ *)
